@@ -55,7 +55,8 @@ const (
 type c38Ev struct {
 	K  string `json:"k"`            // login | logout | req | poll | useall | adv | burst
 	OK bool   `json:"ok,omitempty"` // login: correct credentials
-	IP string `json:"ip,omitempty"` // login/burst: client address A | B
+	IP string `json:"ip,omitempty"` // login/burst: TCP peer A (host 1, new source port per connection) | Ap (host 1, one fixed port) | B (host 2)
+	H  string `json:"h,omitempty"`  // login/burst: client-set forwarding header: "" (none) | xff-fresh | xff-const | xff-peer | xri-fresh | fwd-fresh
 	N  int    `json:"n,omitempty"`  // burst: number of logins (bad credentials) at one instant
 	C  string `json:"c,omitempty"`  // logout/req/poll/useall cookie: none | empty | garbage | trunc0 | tok
 	T  int    `json:"t,omitempty"`  // token index (issue order) when C == tok
@@ -66,7 +67,7 @@ type c38Ev struct {
 func (e c38Ev) String() string {
 	switch e.K {
 	case "login":
-		return fmt.Sprintf("login(ok=%v,ip=%s)", e.OK, e.IP)
+		return fmt.Sprintf("login(ok=%v,ip=%s%s)", e.OK, e.IP, e.hdrStr())
 	case "logout":
 		return "logout(" + e.cookieStr() + ")"
 	case "req":
@@ -78,9 +79,59 @@ func (e c38Ev) String() string {
 	case "adv":
 		return "adv(" + e.D + ")"
 	case "burst":
-		return fmt.Sprintf("burst(ip=%s,n=%d)", e.IP, e.N)
+		return fmt.Sprintf("burst(ip=%s,n=%d%s)", e.IP, e.N, e.hdrStr())
 	}
 	return "?"
+}
+
+func (e c38Ev) hdrStr() string {
+	if e.H == "" {
+		return ""
+	}
+	return ",hdr=" + e.H
+}
+
+// ---------- client address dimension of login attempts ----------
+//
+// The statement limits login attempts per CLIENT ADDRESS. The address of a client of an HTTP
+// server is the address of its TCP peer (the host of RemoteAddr; the source port changes with
+// every connection and identifies nothing). Request headers that name an address
+// (X-Forwarded-For, X-Real-IP, Forwarded) are written by the client itself: they must not
+// change which budget an attempt counts against, otherwise one address picks a new budget per
+// attempt. The reference model therefore counts per peer host and ignores ports and headers.
+
+// c38Peers: TCP peers a login attempt comes from. A and Ap are the same address.
+var c38Peers = []string{"A", "Ap", "B"}
+
+// c38Hdrs: client-set forwarding headers of a login attempt, simplest first.
+//
+//	xff-fresh  X-Forwarded-For: a value never used before in the history
+//	xff-const  X-Forwarded-For: one constant value
+//	xff-peer   X-Forwarded-For: the address of the OTHER peer host (A claims B, B claims A)
+//	xri-fresh  X-Real-IP: a fresh value
+//	fwd-fresh  Forwarded: for=<fresh value>
+var c38Hdrs = []string{"", "xff-fresh", "xff-const", "xff-peer", "xri-fresh", "fwd-fresh"}
+
+var c38HostOf = map[string]string{"A": "10.0.0.1", "Ap": "10.0.0.1", "B": "10.0.0.2"}
+
+// c38Bucket: the client address (model bucket) of a peer.
+func c38Bucket(peer string) string {
+	if peer == "B" {
+		return "B"
+	}
+	return "A"
+}
+
+func c38HdrName(h string) string {
+	switch {
+	case strings.HasPrefix(h, "xff-"):
+		return "X-Forwarded-For"
+	case strings.HasPrefix(h, "xri-"):
+		return "X-Real-IP"
+	case strings.HasPrefix(h, "fwd-"):
+		return "Forwarded"
+	}
+	return ""
 }
 
 func (e c38Ev) cookieStr() string {
@@ -272,8 +323,11 @@ type c38Sys struct {
 	cfg   c38Cfg
 	h     http.Handler
 	toks  []c38Tok
-	hits  map[string][]time.Time // accepted login attempts per address
+	hits  map[string][]time.Time // accepted login attempts per client address (peer host)
+	hdrs  map[string][]string    // parallel to hits: forwarding header name ("" = none) each accepted attempt carried
 	port  int
+	fresh int       // counter behind the "fresh" header values
+	extra [2]string // header (name, value) added to the next served request
 	viol  []c38Viol
 	obs   string
 	trace []string
@@ -308,16 +362,46 @@ func c38Build(cfg c38Cfg) *c38Sys {
 	if err != nil {
 		panic("HARNESS-ERROR NewMux: " + err.Error())
 	}
-	return &c38Sys{cfg: cfg, h: h, hits: map[string][]time.Time{}, port: 40000}
+	return &c38Sys{cfg: cfg, h: h, hits: map[string][]time.Time{}, hdrs: map[string][]string{}, port: 40000}
 }
 
 func (s *c38Sys) addr(ip string) string {
-	s.port++ // a client address is the host; every connection comes from a new source port
-	host := "10.0.0.1"
-	if ip == "B" {
-		host = "10.0.0.2"
+	host, ok := c38HostOf[ip]
+	if !ok {
+		panic("HARNESS-ERROR bad peer " + ip)
 	}
+	if ip == "Ap" {
+		return host + ":55555" // one fixed source port (attempts over one kept-alive connection)
+	}
+	s.port++ // a client address is the host; every connection comes from a new source port
 	return fmt.Sprintf("%s:%d", host, s.port)
+}
+
+// header resolves a header selector of a login attempt from peer to (name, value).
+func (s *c38Sys) header(h, peer string) [2]string {
+	freshVal := func() string {
+		s.fresh++
+		return fmt.Sprintf("100.64.%d.%d", s.fresh/256, s.fresh%256)
+	}
+	switch h {
+	case "":
+		return [2]string{}
+	case "xff-fresh":
+		return [2]string{"X-Forwarded-For", freshVal()}
+	case "xff-const":
+		return [2]string{"X-Forwarded-For", "198.51.100.9"}
+	case "xff-peer":
+		other := c38HostOf["B"]
+		if c38Bucket(peer) == "B" {
+			other = c38HostOf["A"]
+		}
+		return [2]string{"X-Forwarded-For", other}
+	case "xri-fresh":
+		return [2]string{"X-Real-IP", freshVal()}
+	case "fwd-fresh":
+		return [2]string{"Forwarded", "for=" + freshVal()}
+	}
+	panic("HARNESS-ERROR bad header selector " + h)
 }
 
 func (s *c38Sys) serve(method, path, body string, cookie *string, remote string, stream bool) (rr *httptest.ResponseRecorder, panicked any) {
@@ -336,6 +420,10 @@ func (s *c38Sys) serve(method, path, body string, cookie *string, remote string,
 	}
 	if cookie != nil {
 		req.Header.Set("Cookie", sessionCookieName+"="+*cookie)
+	}
+	if s.extra[0] != "" {
+		req.Header.Set(s.extra[0], s.extra[1])
+		s.extra = [2]string{}
 	}
 	req = req.WithContext(context.Background())
 	rr = httptest.NewRecorder()
@@ -419,13 +507,17 @@ func (s *c38Sys) fail(key, format string, a ...any) {
 	s.viol = append(s.viol, c38Viol{key, fmt.Sprintf(format, a...)})
 }
 
-func (s *c38Sys) login(ok bool, ip string) int {
+func (s *c38Sys) login(ok bool, ip, hdr string) int {
 	now := time.Now()
 	pw := c38Pass
 	if !ok {
 		pw = "wrong-" + c38Pass
 	}
-	rr, p := s.serve("POST", "/ui/api/auth/login", fmt.Sprintf(`{"username":%q,"password":%q}`, c38User, pw), nil, s.addr(ip), false)
+	remote := s.addr(ip)
+	s.extra = s.header(hdr, ip)
+	sent := s.extra
+	ip = c38Bucket(ip) // the client address the attempt counts against: the peer host
+	rr, p := s.serve("POST", "/ui/api/auth/login", fmt.Sprintf(`{"username":%q,"password":%q}`, c38User, pw), nil, remote, false)
 	if p != nil {
 		s.fail("login-panic", "login handler panicked: %v", p)
 		return 0
@@ -433,14 +525,31 @@ func (s *c38Sys) login(ok bool, ip string) int {
 	if rr.Code != http.StatusTooManyRequests {
 		// an accepted attempt
 		s.hits[ip] = append(s.hits[ip], now)
+		s.hdrs[ip] = append(s.hdrs[ip], sent[0])
 		n := 0
-		for _, h := range s.hits[ip] {
+		names := map[string]bool{}
+		for i, h := range s.hits[ip] {
 			if h.After(now.Add(-s.cfg.window)) {
 				n++
+				if s.hdrs[ip][i] != "" {
+					names[s.hdrs[ip][i]] = true
+				}
 			}
 		}
 		if n > s.cfg.limit {
-			s.fail("login-rate-limit-exceeded", "address %s: %d login attempts were accepted (not 429) within the last %v (half-open window ending now), limit %d", ip, n, s.cfg.window, s.cfg.limit)
+			key, with := "login-rate-limit-exceeded", ""
+			if len(names) > 0 {
+				// the attempts over the limit got through only in the company of a header the
+				// client writes itself: the budget is chosen by the client, not by its address
+				var ns []string
+				for k := range names {
+					ns = append(ns, k)
+				}
+				sort.Strings(ns)
+				key = "login-budget-chosen-by-client-header:" + strings.Join(ns, "+")
+				with = fmt.Sprintf("; attempts in the window carried the client-set header(s) %s (this attempt: peer %s, %s)", strings.Join(ns, ", "), remote, c38HdrDesc(sent))
+			}
+			s.fail(key, "client address %s (TCP peer host %s): %d login attempts were accepted (not 429) within the last %v (half-open window ending now), limit %d%s", ip, c38HostOf[ip], n, s.cfg.window, s.cfg.limit, with)
 		}
 	}
 	for _, c := range rr.Result().Cookies() {
@@ -449,6 +558,13 @@ func (s *c38Sys) login(ok bool, ip string) int {
 		}
 	}
 	return rr.Code
+}
+
+func c38HdrDesc(h [2]string) string {
+	if h[0] == "" {
+		return "no forwarding header"
+	}
+	return h[0] + ": " + h[1]
 }
 
 // apply executes one event on the real mux, updates the model and checks the step oracle.
@@ -461,17 +577,17 @@ func (s *c38Sys) apply(e c38Ev) {
 		s.obs = "adv " + e.D
 	case "login":
 		before := len(s.toks)
-		code := s.login(e.OK, e.IP)
-		s.obs = fmt.Sprintf("login ok=%v -> %d issued=%d", e.OK, code, len(s.toks)-before)
+		code := s.login(e.OK, e.IP, e.H)
+		s.obs = fmt.Sprintf("login ok=%v%s -> %d issued=%d", e.OK, c38From(e), code, len(s.toks)-before)
 	case "burst":
 		codes := map[int]int{}
 		for i := 0; i < e.N; i++ {
-			codes[s.login(false, e.IP)]++
+			codes[s.login(false, e.IP, e.H)]++
 			if len(s.viol) > 0 {
 				break
 			}
 		}
-		s.obs = fmt.Sprintf("burst n=%d -> %v", e.N, codes)
+		s.obs = fmt.Sprintf("burst n=%d%s -> %v", e.N, c38From(e), codes)
 	case "logout":
 		ck, st, ok := s.cookie(e.C, e.T, now)
 		if !ok {
@@ -526,6 +642,19 @@ func (s *c38Sys) apply(e c38Ev) {
 		s.viol = viol
 		s.obs = fmt.Sprintf("useall cookie=%s -> routes %v poll %s", st, codes, pr)
 	}
+}
+
+// c38From: the part of a login observation that names the peer form and header kind, empty for
+// the plain case (peer with a new port per connection, no header).
+func c38From(e c38Ev) string {
+	out := ""
+	if e.IP == "Ap" {
+		out += " fixed-port"
+	}
+	if e.H != "" {
+		out += " hdr=" + e.H
+	}
+	return out
 }
 
 func (s *c38Sys) route(pattern string) *c38Route {
@@ -692,8 +821,18 @@ func (s *c38Sys) summary() string {
 // sessions live are live (not expired, not logged out) by the model.
 func c38Enabled(cfg c38Cfg, ntoks int, live []int, routes []c38Route) []c38Ev {
 	var ev []c38Ev
+	// plain logins first (new port per connection, no header): they are the representatives that
+	// are extended; the fixed-port and header-carrying forms reach the same model state.
 	for _, ip := range []string{"A", "B"} {
 		ev = append(ev, c38Ev{K: "login", OK: true, IP: ip}, c38Ev{K: "login", OK: false, IP: ip})
+	}
+	for _, h := range c38Hdrs {
+		for _, ip := range c38Peers {
+			if h == "" && ip != "Ap" {
+				continue // listed above
+			}
+			ev = append(ev, c38Ev{K: "login", OK: true, IP: ip, H: h}, c38Ev{K: "login", OK: false, IP: ip, H: h})
+		}
 	}
 	// useall comes before the single-route requests and polls of the same token: they reach the
 	// same search key (session presented just now) and the first history reaching a key is the
@@ -726,6 +865,13 @@ func c38Enabled(cfg c38Cfg, ntoks int, live []int, routes []c38Route) []c38Ev {
 		ev = append(ev, c38Ev{K: "adv", D: d})
 	}
 	ev = append(ev, c38Ev{K: "burst", IP: "A", N: cfg.limit - 1}, c38Ev{K: "burst", IP: "A", N: cfg.limit}, c38Ev{K: "burst", IP: "B", N: cfg.limit})
+	// bursts from the fixed-port form of A and bursts whose every attempt carries a client-set
+	// header: one attempt more than the limit at one instant, so the last one must be refused
+	// within the event itself whatever the history before it was.
+	ev = append(ev, c38Ev{K: "burst", IP: "Ap", N: cfg.limit + 1})
+	for _, h := range c38Hdrs[1:] {
+		ev = append(ev, c38Ev{K: "burst", IP: "A", N: cfg.limit + 1, H: h})
+	}
 	return ev
 }
 
@@ -783,10 +929,12 @@ func TestVerifC38(t *testing.T) {
 	defer rep.Finish()
 
 	cfg := c38ReadCfg(t)
-	rep.Rule = "states = canonical search keys (issued tokens: live with exact remaining ABSOLUTE lifetime (login instant + ttl, never moved by use) and exact time since the token was last presented while live / expired / logged out / issued by a failed login; accepted login attempts per address within the window, as ages) reached by breadth-first search over event histories {login, burst, logout, req(route,cookie), poll(/ui/api/auth/session,cookie), useall(live token: every protected route + session poll at one instant), adv}; every transition is one replay of the whole history on a fresh NewMux in its own synctest bubble; the oracle runs on the last event. signature = observation of the transition (event class, model status of the cookie, route, status code) | model state summary after it (tokens live/expired/logged out, attempts in window per address); non-trivial = the request/logout carried a token that was issued earlier (live, expired, logged out), or a login was answered 429"
+	rep.Rule = "states = canonical search keys (issued tokens: live with exact remaining ABSOLUTE lifetime (login instant + ttl, never moved by use) and exact time since the token was last presented while live / expired / logged out / issued by a failed login; accepted login attempts per client address = TCP peer host within the window, as ages) reached by breadth-first search over event histories {login(ok/bad credentials x peer {A new port per connection, A fixed port, B} x client-set header {none, X-Forwarded-For fresh/constant/other peer's address, X-Real-IP fresh, Forwarded for=fresh}), burst(limit-1 | limit | limit+1 bad logins at one instant, same peer/header dimensions), logout, req(route,cookie), poll(/ui/api/auth/session,cookie), useall(live token: every protected route + session poll at one instant), adv}; every transition is one replay of the whole history on a fresh NewMux in its own synctest bubble; the oracle runs on the last event. signature = observation of the transition (event class, model status of the cookie, route, peer form and header kind of a login, status code) | model state summary after it (tokens live/expired/logged out, attempts in window per address); non-trivial = the request/logout carried a token that was issued earlier (live, expired, logged out), or a login was answered 429"
 	rep.Assumptions = []string{
 		"states with equal search keys are merged: the implementation's state is assumed to be a function of the key = model state + time since each live session was last presented (requests/polls with a cookie that is not a live session lead back to the same key and are not expanded further; presenting a live session leads to a new key, and of the events reaching it the history through useall - all routes and the session poll - is the one extended, so time advances and requests are explored AFTER a use); every replay, whatever its last event, is closed by a sweep of all protected routes x {no cookie, unknown token, every issued token} under the same oracle, so an effect of any event on the immediately following requests is observed",
 		"a request is 'answered' when the status is 2xx (streaming routes are called with an already cancelled context: 200 with no events), 'rejected' otherwise",
+		"'client address' of the rate limit = host of the TCP peer (RemoteAddr): source ports and the request headers a client writes itself (X-Forwarded-For, X-Real-IP, Forwarded) do not select the budget; the console is judged as the endpoint the client connects to (no trusted reverse proxy is configured or configurable in AuthConfig)",
+		"login attempts that differ only in port form / header reach the same search key and the plain form (new port, no header) is the one extended: a header-carrying or fixed-port attempt is extended only when it reaches a model state that no plain event reaches at that depth (on a correct limiter: never, so it is the LAST event of a history, tried after every reachable model state), and header-carrying bursts are limit+1 long so that they decide within the event",
 		"at the exact expiry instant either answer is accepted; sliding window = half-open interval of the configured length",
 		"the /ui/api/auth/session poll is not a protected endpoint: its answer is observed, not judged; it only counts as a presentation of the token",
 		"protected = every registered pattern under /ui/api/ except /ui/api/auth/*; LFS handlers enabled with an in-process fake S3 transport",
@@ -803,6 +951,8 @@ func TestVerifC38(t *testing.T) {
 	rep.SetInfo("ttl", cfg.ttl.String())
 	rep.SetInfo("login_limit", fmt.Sprintf("%d per %v", cfg.limit, cfg.window))
 	rep.SetInfo("deltas", c38Deltas)
+	rep.SetInfo("login_peers", map[string]string{"A": c38HostOf["A"] + ":<new port per connection>", "Ap": c38HostOf["Ap"] + ":55555", "B": c38HostOf["B"] + ":<new port per connection>"})
+	rep.SetInfo("login_client_headers", c38Hdrs)
 
 	var rh []c38Ev
 	if ok, err := vh.LoadReplay(&rh); ok {
@@ -889,6 +1039,11 @@ func TestVerifC38(t *testing.T) {
 		}
 		wg.Wait()
 		var next []c38Node
+		// successors whose last event is a login/burst in fixed-port or header-carrying form: they
+		// reach the model state of the plain form of the same event, so they are considered only
+		// after all plain successors of this depth; every representative history is then plain
+		var variants []c38Node
+		var variantKeys []string
 		for i, o := range outs {
 			if o.cut {
 				capped = true
@@ -924,11 +1079,26 @@ func TestVerifC38(t *testing.T) {
 				if len(r.viol) > 0 {
 					continue // do not expand through a violating transition
 				}
+				if e := o.evs[k]; e.H != "" || e.IP == "Ap" {
+					variants = append(variants, c38Node{hist: h, ntoks: r.ntoks, live: r.live})
+					variantKeys = append(variantKeys, r.canon)
+					continue
+				}
 				if !seen[r.canon] {
 					seen[r.canon] = true
 					states++
 					next = append(next, c38Node{hist: h, ntoks: r.ntoks, live: r.live})
 				}
+			}
+		}
+		for j, n := range variants {
+			if !seen[variantKeys[j]] {
+				// not reached by a plain event: the implementation refused attempts the model would
+				// have accepted (over-throttling, e.g. attempts counted against another address's
+				// budget), which the statement does not forbid; the state is explored like any other
+				seen[variantKeys[j]] = true
+				states++
+				next = append(next, n)
 			}
 		}
 		if !capped {
@@ -955,6 +1125,39 @@ func TestVerifC38(t *testing.T) {
 			vcount[plain] += vcount[k]
 			delete(best, k)
 			delete(vcount, k)
+		}
+	}
+	// a limiter that does not limit plain attempts either is one defect, not one per header
+	if _, ok := best["login-rate-limit-exceeded"]; ok {
+		for k := range best {
+			if strings.HasPrefix(k, "login-budget-chosen-by-client-header:") {
+				vcount["login-rate-limit-exceeded"] += vcount[k]
+				delete(best, k)
+				delete(vcount, k)
+			}
+		}
+	}
+	// attempts carrying different headers in one window (possible when a header-carrying burst was
+	// over-throttled into a model state no plain history reaches, and that history was extended):
+	// when one of the headers chooses the budget on its own, the mixed window is the same defect.
+	{
+		const p = "login-budget-chosen-by-client-header:"
+		var mixed []string
+		for k := range best {
+			if strings.HasPrefix(k, p) && strings.Contains(k[len(p):], "+") {
+				mixed = append(mixed, k)
+			}
+		}
+		sort.Strings(mixed)
+		for _, k := range mixed {
+			for _, name := range strings.Split(k[len(p):], "+") {
+				if _, ok := best[p+name]; ok {
+					vcount[p+name] += vcount[k]
+					delete(best, k)
+					delete(vcount, k)
+					break
+				}
+			}
 		}
 	}
 	// a mechanism that shows on every protected route is one defect of the session check, not one
